@@ -49,12 +49,15 @@
 EXTENDS Integers, Sequences, FiniteSets, TLC, TLCExt, Json, IOUtils, FiniteSetsExt, SequencesExt
 
 CONSTANTS
-    Family,                \* "base" | "file" (blueprints from IOEnv.BP_FILE) | "meta" (C16 family)
-    OptMode,               \* "main" | "none" | "file" (option sets from IOEnv.OPT_FILE) | "meta"
+    Family,                \* "base" | "centres" | "file" (blueprints from IOEnv.BP_FILE)
+                           \* | "pairs" (IOEnv.PAIR_FILE: [{bp, optsets: [[option,...],...]}, ...])
+    OptMode,               \* "main" | "none" | "directed" | "meta" | "file" (option sets from IOEnv.OPT_FILE)
     ConstValuesResolved,
     OldAliasSignStripped,
-    PrintProg,             \* TRUE: Log prints PROG lines
-    PrintFin               \* TRUE: Log prints FIN lines
+    PrintProg,             \* TRUE: Log prints one PROG line per initial state (program IR, solution, tags)
+    PrintFin,              \* TRUE: Log prints one FIN line per final state (predicted name sets / counts)
+    PrintCex               \* TRUE: Log prints a CEX line for every transition into a state violating a property
+                           \*       (used with the as-built switches, where violations are expected and replayed)
 
 VARIABLES bp, opts, sol, cat, val, attr, eqs, ieqs, rel, newc, orig,
           pc, iter, algLeft, status, nonaffine, last
@@ -168,31 +171,33 @@ SubstSeq(s, m) == TLCEval([i \in DOMAIN s |-> Subst(s[i], m)])
 
 -----------------------------------------------------------------------------
 (* Exact nonsingularity test: fraction-free (Bareiss) elimination on an integer matrix *)
-RECURSIVE BareissNZ(_, _, _, _)
-BareissNZ(M, n, k, prev) ==
-    IF k > n THEN TRUE
-    ELSE LET rows == {r \in k..n : M[r][k] # 0} IN
-         IF rows = {} THEN FALSE
-         ELSE IF k = n THEN TRUE
-         ELSE LET r   == Min(rows)
-                  Msw == [i \in 1..n |-> IF i = k THEN M[r] ELSE IF i = r THEN M[k] ELSE M[i]]
-                  piv == Msw[k][k]
-                  M2  == TLCEval([i \in 1..n |-> [j \in 1..n |->
-                             IF i > k /\ j > k
-                             THEN (Msw[i][j] * piv - Msw[i][k] * Msw[k][j]) \div prev
-                             ELSE Msw[i][j]]])
-              IN  BareissNZ(M2, n, k + 1, piv)
+(* TLC passes operator arguments by name: a heavy argument is bound to a VALUE with a singleton
+   quantifier  \E X \in {expr} : ...  before it is used many times. *)
+RECURSIVE BNZ(_, _)     \* M: sequence of rows; prev: previous pivot.  TRUE iff det(M) # 0
+BNZ(M, prev) ==
+    IF M = <<>> THEN TRUE
+    ELSE LET n == Len(M)
+             cands == {r \in 1..n : M[r][1] # 0}
+         IN  IF cands = {} THEN FALSE
+             ELSE LET r == Min(cands)
+                      P == M[r]
+                      piv == P[1]
+                      M2 == TLCEval([i \in 1..(n-1) |-> LET R == M[IF i < r THEN i ELSE i + 1] IN
+                                      [j \in 1..(n-1) |-> (R[j+1] * piv - R[1] * P[j+1]) \div prev]])
+                  IN  \E X \in {M2} : BNZ(X, piv)
 
+CatOf(c, x)   == IF x \in DOMAIN c THEN c[x] ELSE "?"      \* "?": a dangling name (as-built variants only)
 Unknowns(c)   == {x \in DOMAIN c : c[x] \in {"D", "A"}}
 NamesOf(c, K) == {x \in DOMAIN c : c[x] \in K}
 
 (* Jacobian of the equation sequence E wrt the unknowns of c at s is square and nonsingular *)
-Regular(E, c, s) ==
+Regular(E0, c0, s0) ==
+    \E E \in {E0} : \E c \in {c0} : \E s \in {s0} :
     LET U  == Unknowns(c)
-        us == SetToSeq(U)
         n  == Len(E)
     IN  /\ Cardinality(U) = n
-        /\ BareissNZ(TLCEval([i \in 1..n |-> [j \in 1..n |-> DEval(E[i], us[j], s)]]), n, 1, 1)
+        /\ \E us \in {SetToSeq(U)} :
+             \E J \in {TLCEval([i \in 1..n |-> [j \in 1..n |-> DEval(E[i], us[j], s)]])} : BNZ(J, 1)
 
 -----------------------------------------------------------------------------
 (* Signed alias relation: operators of AliasRelation.tla (C17) on one relation value *)
@@ -222,6 +227,16 @@ AllOptions == Main9 \cup Aux
 OptSets ==
     CASE OptMode = "main" -> {s \cup {"expand_mx", "allow_derivative_aliases"} : s \in SUBSET Main9}
       [] OptMode = "none" -> {{"allow_derivative_aliases"}}
+      [] OptMode = "directed" ->      \* the option sets at which the as-built switches matter
+            LET mx == {"expand_mx", "allow_derivative_aliases"} IN
+            { mx \cup {"replace_constant_values"},
+              mx \cup {"replace_constant_values", "replace_parameter_expressions", "detect_aliases"},
+              mx \cup {"replace_constant_values", "eliminate_constant_assignments", "reduce_affine_expression"},
+              mx \cup Main9 \cup {"iterative_simplification"},
+              mx \cup {"iterative_simplification", "detect_aliases", "eliminate_constant_assignments",
+                       "replace_parameter_values", "replace_constant_values"},
+              mx \cup {"iterative_simplification", "detect_aliases", "replace_parameter_values",
+                       "resolve_parameter_values"} }
       [] OptMode = "meta" -> {{"detect_aliases", "allow_derivative_aliases"},
                               {"detect_aliases", "allow_derivative_aliases", "expand_mx", "expand_vectors"},
                               {"detect_aliases", "expand_vectors", "factor_and_simplify_equations"}}
@@ -257,6 +272,8 @@ DerOf(x)  == "der(" \o x \o ")"
    spellings  1: v = +-t      2: v -+ t = 0     3: +-t = v      4: 0 = v -+ t
               5: 3*v = +-3*t  (only the substitute-and-test detection can see it)
               6: -v = -+t
+              7: (t + w1) -+ v = 0 where w1 is the first constant-assignment variable (falls back to
+                 spelling 2 without one): alias-shaped only once w1 has been replaced by 0
    targets    "c1" first core unknown  "c2" last core unknown  "prev" previous alias variable
               "x" first state (falls back to c1)  "u" the input  "p" parameter p1 (needs par knob >= 1,
               else c1)  "k" constant k1 (needs par knob 6.., else c1)                      *)
@@ -283,7 +300,9 @@ AliTab == <<
     <<L(1, 1, "c1"), L(-1, 3, "c1")>>,
     <<L(1, 1, "p")>>,
     <<L(-1, 1, "k")>>,
-    <<L(1, 1, "x"), L(1, 1, "c2")>> >>
+    <<L(1, 1, "x"), L(1, 1, "c2")>>,
+    <<L(1, 1, "c1"), L(-1, 7, "c1")>>,
+    <<L(-1, 1, "c1"), L(1, 7, "c1")>> >>
 AliasName == <<"v1", "v2", "v3">>
 
 (* constant assignments: sequence of [f: spelling, c: value]
@@ -322,7 +341,8 @@ ParTab == <<
     <<PV("p1", "P", Lit(2), "no"), PV("p2", "P", MkSub(Lit(5), Sym("p1")), "add"),
       PV("k1", "K", Lit(-2), "no"), PV("k2", "K", MkMul(Sym("k1"), Lit(3)), "add")>>,
     <<PV("k1", "K", Lit(2), "no"), PV("p1", "P", MkAdd(Sym("k1"), Lit(1)), "add"),
-      PV("p2", "P", NaN, "mul")>> >>
+      PV("p2", "P", NaN, "mul")>>,
+    <<PV("p1", "P", Lit(0), "add")>> >>
 
 (* eliminable variables (names with prefix e_): sequence of [n, f: spelling, r: what it is defined from]
    spellings 1: e = R   2: R = e   3: e + (-R) = 0  (OP_ADD path)   4: (e - R1) = R2 (not matched)
@@ -420,12 +440,19 @@ AliasEq(v, t, s, f) ==      \* the equation spelling; all mean v = s*t
       [] f = 4 -> Eq(Lit(0), IF s = 1 THEN MkSub(V, T) ELSE MkAdd(V, T))
       [] f = 5 -> Eq(MkMul(Lit(3), V), IF s = 1 THEN MkMul(Lit(3), T) ELSE MkNeg(MkMul(Lit(3), T)))
       [] f = 6 -> Eq(MkNeg(V), IF s = 1 THEN MkNeg(T) ELSE T)
+      [] f = 7 -> Eq(IF s = 1 THEN MkSub(MkAdd(T, Sym("w1")), V) ELSE MkAdd(MkAdd(T, Sym("w1")), V), Lit(0))
+W1Zero(b) ==        \* the first constant-assignment variable exists and is 0 in the solution
+    /\ CstTab[b.cst] # <<>>
+    /\ LET c1 == CstTab[b.cst][1] IN
+         IF c1.f = 6 THEN \E i \in DOMAIN Pars(b) : Pars(b)[i].n = "p1" /\ Pars(b)[i].v = Lit(0)
+         ELSE c1.c = 0
 RECURSIVE AddAli(_, _, _, _, _)
 AddAli(acc, b, ls, i, prev) ==
     IF i > Len(ls) THEN acc
     ELSE LET v == AliasName[i]
              t == AliTarget(b, ls[i].t, prev)
-             e == AliasEq(v, t, ls[i].s, ls[i].f)
+             f == IF ls[i].f = 7 /\ ~W1Zero(b) THEN 2 ELSE ls[i].f
+             e == AliasEq(v, t, ls[i].s, f)
          IN  AddAli(AddEq(Given(acc, v, "A", ls[i].s * acc.sol[t]), e.l, e.r), b, ls, i + 1, v)
 
 (* step 4: constant assignments *)
@@ -572,7 +599,8 @@ BaseBP == [core |-> 4, ali |-> 1, cst |-> 1, par |-> 1, elim |-> 1, ini |-> 0, r
 (* one knob at a time around two centres, plus a block of rich combinations *)
 Centres == {BaseBP,
             [core |-> 8, ali |-> 12, cst |-> 4, par |-> 10, elim |-> 7, ini |-> 2, row |-> 2, use |-> 2, rev |-> 1, meta |-> 0],
-            [core |-> 5, ali |-> 15, cst |-> 11, par |-> 9, elim |-> 12, ini |-> 3, row |-> 3, use |-> 3, rev |-> 0, meta |-> 0]}
+            [core |-> 5, ali |-> 15, cst |-> 11, par |-> 8, elim |-> 12, ini |-> 3, row |-> 3, use |-> 3, rev |-> 0, meta |-> 0],
+            [core |-> 3, ali |-> 23, cst |-> 10, par |-> 12, elim |-> 1, ini |-> 0, row |-> 1, use |-> 1, rev |-> 0, meta |-> 0]}
 BaseBPs ==
     UNION {   {[c EXCEPT !.core = i] : i \in 1..Len(CoreTab)}
          \cup {[c EXCEPT !.ali = i] : i \in 1..Len(AliTab)}
@@ -584,10 +612,26 @@ BaseBPs ==
          \cup {[c EXCEPT !.use = i] : i \in 1..Len(UseTab)}
          \cup {[c EXCEPT !.rev = i] : i \in 0..1} : c \in Centres}
 
+(* the shapes at which the as-built switches matter: constants defined by expressions, aliases that only
+   become visible in a later iteration *)
+DirectedBPs ==
+    LET c4 == [core |-> 3, ali |-> 23, cst |-> 10, par |-> 12, elim |-> 1, ini |-> 0, row |-> 1, use |-> 1, rev |-> 0, meta |-> 0]
+    IN  {[c4 EXCEPT !.ali = i] : i \in {2, 3, 12, 23, 24}}
+   \cup {[c4 EXCEPT !.core = i] : i \in 1..Len(CoreTab)}
+   \cup {[c4 EXCEPT !.row = i] : i \in RowDom} \cup {[c4 EXCEPT !.rev = 1], [c4 EXCEPT !.ini = 2], [c4 EXCEPT !.elim = 2]}
+   \cup {[BaseBP EXCEPT !.par = i] : i \in {7, 8, 9, 10, 11}}
+   \cup {[BaseBP EXCEPT !.par = i, !.ini = 3, !.ali = 21] : i \in {8, 9, 10}}
+   \cup {[BaseBP EXCEPT !.ali = 20, !.par = 3], [BaseBP EXCEPT !.ali = 20, !.par = 2]}
+
 FileBPs == LET f == JsonDeserialize(IOEnv.BP_FILE) IN {f[i] : i \in DOMAIN f}
 
-Blueprints == CASE Family = "base" -> BaseBPs
-                [] Family = "file" -> FileBPs
+PairGroups == LET f == JsonDeserialize(IOEnv.PAIR_FILE) IN {f[i] : i \in DOMAIN f}
+Groups == CASE Family = "base" -> {[bp |-> b, optsets |-> <<>>] : b \in BaseBPs}
+            [] Family = "centres" -> {[bp |-> b, optsets |-> <<>>] : b \in Centres}
+            [] Family = "directed" -> {[bp |-> b, optsets |-> <<>>] : b \in DirectedBPs}
+            [] Family = "file" -> {[bp |-> b, optsets |-> <<>>] : b \in FileBPs}
+            [] Family = "pairs" -> PairGroups
+OptsOf(g) == IF Family = "pairs" THEN {ToSet(g.optsets[i]) : i \in DOMAIN g.optsets} ELSE OptSets
 
 (* the blueprint describes a model with a unique solution *)
 Admissible(m) == Regular(Resid(m.eqs), m.cat, m.sol)
@@ -596,11 +640,13 @@ Admissible(m) == Regular(Resid(m.eqs), m.cat, m.sol)
 Has(o) == o \in opts
 
 Init ==
-    /\ bp \in Blueprints
-    /\ bp \in BPSpace
-    /\ opts \in OptSets
-    /\ \E m \in {Build(bp)} :      \* (singleton quantification forces TLC to evaluate Build once)
+    /\ \E g \in Groups :
+       /\ bp = g.bp
+       /\ bp \in BPSpace
+       /\ \E m \in {Build(bp)} :      \* (singleton quantification makes TLC evaluate Build once per blueprint)
          /\ Admissible(m)
+         /\ opts \in OptsOf(g)
+         /\ opts \subseteq AllOptions
          /\ sol = ExtSol(bp, m)
          /\ cat = m.cat
          /\ val = m.val
@@ -619,7 +665,7 @@ A == NamesOf(cat, {"A"})
 S == NamesOf(cat, {"S"})
 Balance0(c, E) == Cardinality(NamesOf(c, {"S", "A"})) - Len(E)
 
-Step(name) == /\ status = "run" /\ Passes[pc] = name
+Step(name) == /\ status = "run" /\ pc <= Len(Passes) /\ Passes[pc] = name
               /\ pc' = pc + 1
               /\ last' = [pass |-> name, iter |-> iter]
               /\ UNCHANGED <<bp, opts, sol, orig, iter, algLeft>>
@@ -637,7 +683,7 @@ SubstVals(v, m) == TLCEval([x \in DOMAIN v |-> Subst(v[x], m)])
    until nothing changes (SUBSTITUTE_LOOP_LIMIT is far above the chain lengths used here) *)
 RECURSIVE Resolve(_, _)
 Resolve(m, fuel) ==
-    LET m2 == [x \in DOMAIN m |-> Subst(m[x], m)]
+    LET m2 == TLCEval([x \in DOMAIN m |-> Subst(m[x], m)])
     IN  IF m2 = m \/ fuel = 0 THEN m2 ELSE Resolve(m2, fuel - 1)
 
 (* ---- resolve_parameter_values: metadata only ---- *)
@@ -655,9 +701,9 @@ ResolveParameterValues ==
 
 (* ---- replace_parameter_expressions / replace_constant_expressions ---- *)
 ReplaceExpressions(c) ==
-    LET names == {x \in NamesOf(cat, {c}) : ~IsConstTree(val[x])}
-        m == Resolve([x \in names |-> val[x]], 10)
-    IN  /\ cat' = Restrict(cat, Live \ names)
+    \E names \in {{x \in NamesOf(cat, {c}) : ~IsConstTree(val[x])}} :
+    \E m \in {Resolve(TLCEval([x \in names |-> val[x]]), 10)} :
+        /\ cat' = Restrict(cat, Live \ names)
         /\ val' = SubstVals(Restrict(val, DOMAIN val \ names), m)
         /\ attr' = Restrict(attr, Live \ names)
         /\ eqs' = SubstSeq(eqs, m)
@@ -688,7 +734,7 @@ ECAFold(es, i, algs, kept, found) ==
 EliminateConstantAssignments ==
     /\ Step("eliminate_constant_assignments")
     /\ IF Has("eliminate_constant_assignments")
-       THEN LET r == ECAFold(eqs, 1, A, <<>>, [x \in {} |-> 0]) IN
+       THEN \E r \in {ECAFold(eqs, 1, A, <<>>, [x \in {} |-> 0])} :
             /\ eqs' = r.kept
             /\ cat' = [x \in Live |-> IF x \in DOMAIN r.found THEN "K" ELSE cat[x]]
             /\ val' = [x \in DOMAIN val \cup DOMAIN r.found |->
@@ -702,9 +748,9 @@ EliminateConstantAssignments ==
 ReplaceParameterValues ==
     /\ Step("replace_parameter_values")
     /\ IF Has("replace_parameter_values")
-       THEN LET names == {x \in NamesOf(cat, {"P"}) : IsRegular(val[x])}
-                m == [x \in names |-> val[x]]
-            IN  /\ cat' = Restrict(cat, Live \ names)
+       THEN \E names \in {{x \in NamesOf(cat, {"P"}) : IsRegular(val[x])}} :
+            \E m \in {TLCEval([x \in names |-> val[x]])} :
+                /\ cat' = Restrict(cat, Live \ names)
                 /\ val' = SubstVals(Restrict(val, DOMAIN val \ names), m)
                 /\ attr' = Restrict(attr, Live \ names)
                 /\ eqs' = SubstSeq(eqs, m)
@@ -716,12 +762,12 @@ ReplaceParameterValues ==
 ReplaceConstantValues ==
     /\ Step("replace_constant_values")
     /\ IF Has("replace_constant_values")
-       THEN LET names == NamesOf(cat, {"K"})
-                m0 == [x \in names |-> val[x]]
-                m == IF ConstValuesResolved THEN Resolve(m0, 10) ELSE m0
-                gone == UNION {BlockOf(rel, <<x, 1>>) \cup BlockOf(rel, <<x, -1>>) :
-                                 x \in {z \in names : \E b \in rel : <<z, 1>> \in b}}
-            IN  /\ cat' = Restrict(cat, Live \ names)
+       THEN \E names \in {NamesOf(cat, {"K"})} :
+            \E m0 \in {TLCEval([x \in names |-> val[x]])} :
+            \E m \in {IF ConstValuesResolved THEN Resolve(m0, 10) ELSE m0} :
+            \E gone \in {UNION {BlockOf(rel, <<x, 1>>) \cup BlockOf(rel, <<x, -1>>) :
+                                 x \in {z \in names : \E b \in rel : <<z, 1>> \in b}}} :
+                /\ cat' = Restrict(cat, Live \ names)
                 /\ val' = SubstVals(Restrict(val, DOMAIN val \ names), m)
                 /\ attr' = Restrict(attr, Live \ names)
                 /\ eqs' = SubstSeq(eqs, m)
@@ -749,8 +795,8 @@ EAMatch(e, algs, sts) ==
 (* get_derivative: algebraic states met while differentiating become differentiated states *)
 DerivOf(v, c) ==        \* [d |-> derivative tree, promoted |-> set of algebraic names that became states]
     LET deps == Syms(v)
-        pro == {x \in deps : c[x] = "A"}
-        term(x) == IF c[x] \in {"S", "A"} THEN MkMul(DTree(v, x), Sym(DerOf(x))) ELSE Lit(0)
+        pro == {x \in deps : CatOf(c, x) = "A"}
+        term(x) == IF CatOf(c, x) \in {"S", "A"} THEN MkMul(DTree(v, x), Sym(DerOf(x))) ELSE Lit(0)
         sum == LET G[T \in SUBSET deps] == IF T = {} THEN Lit(0)
                                            ELSE LET x == CHOOSE z \in T : TRUE IN MkAdd(term(x), G[T \ {x}])
                IN G[deps]
@@ -774,9 +820,9 @@ EliminableVariables ==
        THEN IF ~Has("expand_mx")
             THEN /\ status' = "raised"      \* "requires expand_mx": reported failure
                  /\ UNCHANGED <<cat, val, attr, eqs, ieqs, rel, newc, nonaffine>>
-            ELSE LET r == EVFold(eqs, 1, cat, <<>>, [x \in {} |-> Lit(0)])
-                     m == Resolve(r.m, 10)
-                 IN  /\ cat' = r.cat
+            ELSE \E r \in {EVFold(eqs, 1, cat, <<>>, [x \in {} |-> Lit(0)])} :
+                 \E m \in {Resolve(r.m, 10)} :
+                     /\ cat' = r.cat
                      /\ attr' = [x \in DOMAIN r.cat |-> IF x \in DOMAIN attr THEN attr[x] ELSE DefaultAttr]
                      /\ eqs' = SubstSeq(r.kept, m)
                      /\ ieqs' = SubstSeq(ieqs, m)
@@ -807,7 +853,7 @@ DNE(c) == NamesOf(c, {"S", "D", "I", "P", "K"})
    candidates both outcomes are admissible.  Result: set of [x, y, neg, sure]. *)
 AliasCands(e, c) ==
     LET ds == Syms(e)
-        np == {x \in ds : c[x] \notin {"P", "K"}}
+        np == {x \in ds : CatOf(c, x) \notin {"P", "K"}}
         fast == e.k \in {"add", "sub"} /\ IsSym(e.a[1]) /\ IsSym(e.a[2]) /\ Cardinality(ds) = 2
     IN  IF fast THEN {[x |-> e.a[1].n, y |-> e.a[2].n, neg |-> e.k = "add", sure |-> TRUE]}
         ELSE LET pairs == (IF Cardinality(ds) = 2 THEN {ds} ELSE {}) \cup (IF Cardinality(np) = 2 THEN {np} ELSE {})
@@ -835,7 +881,7 @@ MakeAlias(d0, d1, c, cn) ==
         a == IF swap THEN o0 ELSE a0
         o == IF swap THEN a0 ELSE o0
     IN  IF a = "" THEN [ok |-> FALSE, keep |-> "", elim |-> ""]
-        ELSE IF ~Has("allow_derivative_aliases") /\ (c[a] = "D" \/ c[o] = "D")
+        ELSE IF ~Has("allow_derivative_aliases") /\ (CatOf(c, a) = "D" \/ CatOf(c, o) = "D")
              THEN [ok |-> FALSE, keep |-> "", elim |-> ""]
         ELSE IF CanonName(cn, a) \in dne /\ CanonName(cn, o) \in dne
              THEN [ok |-> FALSE, keep |-> "", elim |-> ""]
@@ -896,7 +942,13 @@ MergeSeq(a, at, zs) == IF zs = <<>> THEN a
 DetectAliases ==
     /\ Step("detect_aliases")
     /\ IF Has("detect_aliases")
-       THEN \E r \in DAFold(eqs, 1, <<>>, rel, [x \in {z[1] : z \in UNION rel} |->
+       THEN IF \E b \in rel : \A z \in b : z[1] \notin Live
+            THEN \* a class recorded by an earlier detect_aliases pass lost its canonical variable (a parameter that
+                 \* was replaced since): the code fails with KeyError in  all_states[canonical]  - reported failure
+                 /\ status' = "raised"
+                 /\ UNCHANGED <<cat, val, attr, eqs, ieqs, rel, newc, nonaffine>>
+            ELSE
+            \E r \in DAFold(eqs, 1, <<>>, rel, [x \in {z[1] : z \in UNION rel} |->
                                   \* canonical names of the classes of earlier passes: the surviving member
                                   CHOOSE y \in {z[1] : z \in BlockOf(rel, <<x, 1>>) \cup BlockOf(rel, <<x, -1>>)} : y \in Live],
                             <<>>) :
@@ -906,9 +958,9 @@ DetectAliases ==
                 newOf(c) == {z \in ClassOf(r.rel, c) : z[1] # c /\ z[1] \in Live
                                /\ (OldAliasSignStripped \/ z[2] = 1 \/ ~inOld(z[1]))}
                 gone == UNION {{z[1] : z \in newOf(c)} : c \in canons}
-                m == [x \in gone |-> LET c == r.cn[x]
-                                         sg == (CHOOSE z \in ClassOf(r.rel, c) : z[1] = x)[2]
-                                     IN IF sg = 1 THEN Sym(c) ELSE MkNeg(Sym(c))]
+                m == TLCEval([x \in gone |-> LET c == r.cn[x]
+                                                 sg == (CHOOSE z \in ClassOf(r.rel, c) : z[1] = x)[2]
+                                             IN IF sg = 1 THEN Sym(c) ELSE MkNeg(Sym(c))])
             IN  /\ rel' = r.rel
                 /\ cat' = Restrict(cat, Live \ gone)
                 /\ LET startChoices(c) ==        \* the aliases are iterated as a Python set: any explicit one may come first
@@ -924,8 +976,7 @@ DetectAliases ==
                                                EXCEPT !.sset = st[x].sset, !.start = st[x].start]
                                        ELSE attr[x]]
                 /\ val' = val
-                /\ eqs' = SubstSeq(r.kept, m)
-                /\ ieqs' = SubstSeq(ieqs, m)
+                /\ \E mm \in {m} : eqs' = SubstSeq(r.kept, mm) /\ ieqs' = SubstSeq(ieqs, mm)
                 /\ UNCHANGED <<newc, status, nonaffine>>
        ELSE Skip
 
@@ -1015,7 +1066,28 @@ Summary(c, E, R) == [S |-> NamesOf(c, {"S"}), D |-> NamesOf(c, {"D"}), A |-> Nam
                      I |-> NamesOf(c, {"I"}), P |-> NamesOf(c, {"P"}), K |-> NamesOf(c, {"K"}),
                      neq |-> Len(E), rel |-> R]
 
-Prog == [bp |-> bp,
+(* shape tags: the class of a program, used by the harness to group verdicts *)
+Tags(b) ==
+    LET al == AliTab[b.ali]  cs == CstTab[b.cst]  ps == Pars(b)  es == ElimTab[b.elim] IN
+    {"core:" \o ToString(b.core), "row:" \o ToString(b.row), "ini:" \o ToString(b.ini)}
+    \cup (IF al = <<>> THEN {"ali:none"}
+          ELSE {"ali:len" \o ToString(Len(al))}
+               \cup {IF al[i].s = 1 THEN "ali:pos" ELSE "ali:neg" : i \in DOMAIN al}
+               \cup {"ali:f" \o ToString(al[i].f) : i \in DOMAIN al}
+               \cup {"ali:t-" \o al[i].t : i \in DOMAIN al})
+    \cup (IF cs = <<>> THEN {"cst:none"} ELSE {"cst:f" \o ToString(cs[i].f) : i \in DOMAIN cs})
+    \cup (IF ps = <<>> THEN {"par:none"}
+          ELSE {"par:" \o ps[i].c \o (IF ps[i].v.k = "nan" THEN "free" ELSE IF ps[i].v.k = "lit" THEN "num" ELSE "expr")
+                  : i \in DOMAIN ps}
+               \cup {"par:use-" \o ps[i].use : i \in DOMAIN ps})
+    \cup (IF b.ini # 0 THEN {"has:ieqs"} ELSE {})
+    \cup (IF es = <<>> THEN {"elim:none"}
+          ELSE {"elim:len" \o ToString(Len(es))}
+               \cup {"elim:f" \o ToString(es[i].f) : i \in DOMAIN es}
+               \cup {"elim:r-" \o es[i].r : i \in DOMAIN es})
+
+Prog == [bp |-> bp, tags |-> Tags(bp),
+         affine |-> IsAffine(Resid(orig.eqs), orig.cat) /\ IsAffine(Resid(orig.ieqs), orig.cat),
          vars |-> [i \in DOMAIN orig.order |->
                      LET x == orig.order[i] IN
                      [n |-> x, cat |-> orig.cat[x],
@@ -1023,7 +1095,23 @@ Prog == [bp |-> bp,
                       attr |-> orig.attr[x]]],
          eqs |-> orig.eqs, ieqs |-> orig.ieqs, sol |-> sol]
 
+Violated(c, v, e, ie, R, nc, st, na, at) ==     \* names of the state predicates that fail in the given state
+    LET req == st # "raised" /\ ~na IN
+    (IF req /\ ~(/\ \A i \in DOMAIN e : Eval(e[i], sol) = 0
+                 /\ \A i \in DOMAIN ie : Eval(ie[i], sol) = 0
+                 /\ Regular(e, c, sol)) THEN {"SolutionPreserved"} ELSE {})
+    \cup (IF ~(/\ \A b \in R : \A y, z \in b : y[2] * sol[y[1]] = z[2] * sol[z[1]]
+               /\ \A x \in DOMAIN nc : nc[x] = sol[x]) THEN {"RecordedEliminationsHold"} ELSE {})
+    \cup (IF st # "raised" /\ ~(SeqSyms(e) \subseteq DOMAIN c /\ SeqSyms(ie) \subseteq DOMAIN c)
+          THEN {"SelfContained"} ELSE {})
+    \cup (IF Balance0(c, e) # Balance0(cat, eqs) THEN {"Balance"} ELSE {})
+
 Log == /\ (PrintProg /\ last.pass = "init") => PrintT(<<"PROG", ToJson(Prog)>>)
+       /\ PrintCex =>
+             \E vs \in {Violated(cat', val', eqs', ieqs', rel', newc', status', nonaffine', attr')} :
+                (vs # {} /\ Violated(cat, val, eqs, ieqs, rel, newc, status, nonaffine, attr) \ {"Balance"} = {})
+                   => PrintT(<<"CEX", ToJson([bp |-> bp, opts |-> opts, pass |-> last'.pass,
+                                                   iter |-> iter, violated |-> vs])>>)
        /\ (PrintFin /\ status' # "run") =>
              PrintT(<<"FIN", ToJson([bp |-> bp, opts |-> opts, status |-> status', nonaffine |-> nonaffine',
                                      fin |-> Summary(cat', eqs', rel'),
